@@ -3,7 +3,8 @@
 (* and the generic one-point mutations producing the near-miss candidates.  See C18_Alethe.tla.                       *)
 EXTENDS C18_Sem
 CONSTANTS Level,       \* 1..3: size of the seed pools
-          MutDepth     \* depth to which one-point mutations descend into terms
+          MutDepth,    \* depth to which one-point mutations descend into terms
+          WrapMuts     \* mutation kinds of the candidates that are also closed into whole proofs
 
 \* ------------------------------------------------------------------ signature
 TA == <<"tv","a">>
@@ -14,6 +15,8 @@ ff == <<"var","f",FunT(TA,TA)>>         fh == <<"var","h",FunT(TA,TA)>>
 fg == <<"var","g",FunT(TA,FunT(TA,TA))>>
 pP == <<"var","P",FunT(TA,BoolT)>>      pR == <<"var","R",FunT(TA,BoolT)>>
 pQ == <<"var","Q",FunT(TA,FunT(TA,BoolT))>>
+pT == <<"var","T",FunT(TA,FunT(TA,FunT(TA,BoolT)))>>
+F3(f, a, b, c) == App(App(App(f, a), b), c)
 ix == <<"var","x",IntT>>    iy == <<"var","y",IntT>>
 ru == <<"var","u",RealT>>   rv == <<"var","v",RealT>>
 AtomPool == {vp, vq, vr, ca, cb, cc, ff, fh, pP, pR, ix, iy, ru, rv}
@@ -66,6 +69,7 @@ FSN == {<<Neg(vp), Disj(vq, vr), vr>>} \cup (IF Level >= 2 THEN {<<vp, vq>>, <<v
 \* ------------------------------------------------------------------ schemas: clausification / tautologies (no premise)
 R_false == { I("verit_false", <<>>, <<Neg(FalseC)>>) }
 R_not_not == { I("verit_not_not", <<>>, <<Neg(Neg(Neg(A))), A>>) : A \in FS1 }
+             \cup { NM(I("verit_not_not", <<>>, <<Conj(vp, Conj(vq, Neg(vr))), vr>>), "nm.shape") }
 R_and_pos == UNION { { I("verit_and_pos", <<>>, <<Neg(AndN(fs)), fs[k]>>) : k \in 1..Len(fs) } : fs \in FSN }
 R_and_neg == { I("verit_and_neg", <<>>, <<AndN(fs)>> \o Neg1(fs)) : fs \in FSN }
 R_or_pos == { I("verit_or_pos", <<>>, <<Neg(OrN(fs))>> \o fs) : fs \in FSN }
@@ -139,7 +143,9 @@ R_eq_congruent == { I("verit_eq_congruent", <<>>, <<Neg(Eqa(ca, cb)), Eqa(F1(ff,
                     I("verit_eq_congruent", <<>>, <<Neg(Eqa(ca, cb)), Neg(Eqa(cc, cd)), Eqa(F2(fg, ca, cc), F2(fg, cb, cd))>>) }
 R_eq_congruent_pred == { I("verit_eq_congruent_pred", <<>>, <<Neg(Eqa(ca, cb)), Neg(F1(pP, ca)), F1(pP, cb)>>),
                          I("verit_eq_congruent_pred", <<>>, <<Neg(Eqa(ca, cb)), F1(pP, ca), Neg(F1(pP, cb))>>),
-                         I("verit_eq_congruent_pred", <<>>, <<Neg(Eqa(ca, cb)), Neg(Eqa(cc, cd)), Neg(F2(pQ, ca, cc)), F2(pQ, cb, cd)>>) }
+                         I("verit_eq_congruent_pred", <<>>, <<Neg(Eqa(ca, cb)), Neg(Eqa(cc, cd)), Neg(F2(pQ, ca, cc)), F2(pQ, cb, cd)>>),
+                         NM(I("verit_eq_congruent_pred", <<>>, <<Neg(Eqa(ca, cb)), Neg(Eqa(cc, cd)), Neg(F3(pT, ca, cc, ca)), F3(pT, cb, cd, cc)>>), "nm.arity"),
+                         NM(I("verit_eq_congruent_pred", <<>>, <<Neg(Eqa(ca, cb)), Neg(F2(pQ, ca, ca)), F2(pQ, cb, cc)>>), "nm.arity") }
 R_trans == { I("verit_trans", <<PS(Eqa(ca, cb)), PS(Eqa(cb, cc))>>, <<Eqa(ca, cc)>>),
              I("verit_trans", <<PS(Eqa(ca, cb)), PS(Eqa(cb, cc)), PS(Eqa(cc, cd))>>, <<Eqa(ca, cd)>>),
              I("verit_trans", <<PS(Iff(vp, vq)), PS(Iff(vq, vr))>>, <<Iff(vp, vr)>>) }
@@ -213,7 +219,9 @@ R_eq_simplify == { S("verit_eq_simplify", Eqa(ca, ca), TrueC), S("verit_eq_simpl
                    S("verit_eq_simplify", EqT(IntT, ix, ix), TrueC), S("verit_eq_simplify", EqT(IntT, Num(IntT, 1), Num(IntT, 2)), FalseC),
                    S("verit_eq_simplify", EqT(RealT, Num(RealT, 0), Num(RealT, 2)), FalseC),
                    S("verit_eq_simplify", Neg(EqT(IntT, Num(IntT, 2), Num(IntT, 2))), FalseC),
-                   S("verit_eq_simplify", EqT(IntT, Num(IntT, 2), Num(IntT, 2)), TrueC) }
+                   S("verit_eq_simplify", EqT(IntT, Num(IntT, 2), Num(IntT, 2)), TrueC),
+                   NM(S("verit_eq_simplify", Eqa(ca, cb), FalseC), "nm.vars"), NM(S("verit_eq_simplify", EqT(IntT, ix, iy), FalseC), "nm.vars"),
+                   NM(S("verit_eq_simplify", Neg(Eqa(ca, cb)), FalseC), "nm.vars") }
 R_ac_simp == UNION { { S("verit_ac_simp", Conj(Conj(s[1], s[2]), s[1]), Conj(s[1], s[2])),
                        S("verit_ac_simp", Disj(s[1], Disj(s[2], s[1])), Disj(s[1], s[2])),
                        S("verit_ac_simp", Disj(Disj(s[1], s[2]), Disj(s[3], s[2])), OrN(<<s[1], s[2], s[3]>>)),
@@ -222,6 +230,11 @@ R_connective_def == UNION { { S("verit_connective_def", Iff(s[1], s[2]), Conj(Im
                               S("verit_connective_def", IteB(s), Conj(Imp(s[1], s[2]), Imp(Neg(s[1]), s[3]))),
                               S("verit_connective_def", Xor(s[1], s[2]), Disj(Conj(Neg(s[1]), s[2]), Conj(s[1], Neg(s[2])))) } : s \in FS3 }
                     \cup { S("verit_connective_def", Ex(TA, F1(pP, B0)), Neg(All(TA, Neg(F1(pP, B0))))) }
+
+IteA == Ite(TA, vp, ca, cb)
+R_ite_intro == { S("verit_ite_intro", F1(pP, IteA), Conj(F1(pP, IteA), Ite(BoolT, vp, Eqa(ca, IteA), Eqa(cb, IteA)))),
+                 S("verit_ite_intro", F1(pP, ca), F1(pP, ca)),
+                 S("verit_ite_intro", Eqa(IteA, cc), Conj(Eqa(IteA, cc), Ite(BoolT, vp, Eqa(ca, IteA), Eqa(cb, IteA)))) }
 
 \* ------------------------------------------------------------------ schemas: linear arithmetic
 CX(cs) == [NoX EXCEPT !.coeffs = cs]
@@ -322,7 +335,7 @@ Schemas ==
   \cup R_not_equiv1 \cup R_not_equiv2 \cup R_ite1 \cup R_ite2 \cup R_not_ite1 \cup R_not_ite2 \cup R_contraction \cup R_th_resolution
   \cup R_eq_reflexive \cup R_eq_transitive \cup R_eq_congruent \cup R_eq_congruent_pred \cup R_trans \cup R_cong \cup R_subproof
   \cup R_not_simplify \cup R_and_simplify \cup R_or_simplify \cup R_implies_simplify \cup R_equiv_simplify \cup R_bool_simplify
-  \cup R_ite_simplify \cup R_eq_simplify \cup R_ac_simp \cup R_connective_def
+  \cup R_ite_simplify \cup R_ite_intro \cup R_eq_simplify \cup R_ac_simp \cup R_connective_def
   \cup R_la_generic \cup R_la_disequality \cup R_la_rw_eq \cup R_comp_simplify \cup R_sum_simplify \cup R_prod_simplify
   \cup R_minus_simplify \cup R_unary_minus_simplify \cup R_div_simplify
   \cup R_forall_inst \cup R_qnt_simplify \cup R_qnt_rm_unused \cup R_qnt_join \cup R_qnt_cnf \cup R_context
